@@ -112,22 +112,29 @@ func runC18(c *core.Ctx) {
 				good := false
 				if sinfo.Default != nil {
 					good = true
-					core.Search(nil, sinfo.Default, func(x ssa.Instruction) core.Action {
+					isSentinel := func(v ssa.Value) bool {
+						ld, isLoad := core.Unwrap(v).(*ssa.UnOp)
+						return isLoad && noSpace != nil && ld.X == ssa.Value(noSpace)
+					}
+					core.SearchAssume(nil, sinfo.Default, func(x ssa.Instruction) core.Action {
 						if ret, ok := x.(*ssa.Return); ok {
-							last := core.Unwrap(ret.Results[len(ret.Results)-1])
-							ld, isLoad := last.(*ssa.UnOp)
-							if !isLoad || noSpace == nil || ld.X != ssa.Value(noSpace) {
-								good = false
+							// a merged exit returns a φ: the values it can carry on paths from this arm
+							for _, last := range phiEdgesFrom(ret.Results[len(ret.Results)-1], sinfo.Default, nil) {
+								if !isSentinel(last) {
+									good = false
+								}
 							}
 							if len(ret.Results) > 1 {
-								if k, isC := core.ConstInt(ret.Results[0]); !isC || k != 0 {
-									good = false
+								for _, first := range phiEdgesFrom(ret.Results[0], sinfo.Default, nil) {
+									if k, isC := core.ConstInt(first); !isC || k != 0 {
+										good = false
+									}
 								}
 							}
 							return core.Barrier
 						}
 						return core.Continue
-					}, nil)
+					}, nil, isSentinel) // the sentinel is a package-level error value: not nil
 				}
 				c.Check(good, "R1", name+"/default-returns-queue-full", p.InstrPos(sinfo.Sel), "the default arm returns (0, ErrAsyncNoSpace)", "the default arm of the non-blocking enqueue does not return (0, queue-full sentinel)")
 			}
